@@ -80,7 +80,16 @@ def tlc_catalogue(consts, work):
         raise common.MachineryError('KeyGen produced no catalogue:\n%s' % r.out[-2000:])
     for g in groups:
         g['calls'] = sorted(g['calls'], key=lambda c: json.dumps(c, sort_keys=True))
+        # every call of a trace is compared with all earlier ones (quadratic): large groups are sampled (seeded)
+        cap = int(os.environ.get('VERIF_KEY_CALLS', '0')) or CALL_CAP[0]
+        if len(g['calls']) > cap:
+            rng = random.Random(common.seed() * 1000003 + g['sid'] * 131 + g['iid'])
+            g['calls_total'] = len(g['calls'])
+            g['calls'] = sorted(rng.sample(g['calls'], cap), key=lambda c: json.dumps(c, sort_keys=True))
     return groups, r.distinct
+
+
+CALL_CAP = [300]
 
 
 def base_consts(tier, igns, sigs=None, pvals=None, po=None):
@@ -97,7 +106,7 @@ def pair_consts(tier, consts):
     """bounds of the exhaustive layer-I pair check (quadratic in the number of calls)"""
     c = dict(consts)
     if tier == 'thorough':
-        c['PVals'] = {1, 2, 3}
+        c['PVals'] = {1, 3} if len(consts['SigIds']) > 60 else {1, 2, 3}
     else:
         c['PVals'] = set(sorted(consts['PVals'])[:2]) | ({3} if 3 in consts['PVals'] else set())
         c['MAXK'] = 1
@@ -166,7 +175,8 @@ def signature(t, v, pid):
             'exc': e['exc']}
 
 
-def finish(rep, pid, tier, mcs, cat_states, traces, extra_cov=None, assumptions=()):
+def judge(rep, pid, traces, acc):
+    """validate a batch of traces with TLC (KeyTrace), hand rejections to the report, accumulate the statistics in acc"""
     strip = [{k: t[k] for k in ('sig', 'ign', 'km', 'cached', 'events')} for t in traces]
     verdicts, st = common.validate_traces('KeyTrace', strip, [pid], per_slice=max(8, len(strip) // common.NCPU + 1))
     oracle = 0
@@ -185,22 +195,35 @@ def finish(rep, pid, tier, mcs, cat_states, traces, extra_cov=None, assumptions=
     if oracle:
         raise common.MachineryError('%d trace(s) rejected by ORACLE.* clauses: the TLA+ transcription of Python\'s '
                                     'argument binding disagrees with the interpreter' % oracle)
-    nevents = sum(len(t['events']) for t in traces)
-    distinct = len({common.trace_hash([t['sig'], t['ign'], t['km'], t['meta']['mode']]) for t in traces})
-    s0 = traces[0]
-    sample = {'function': s0['meta']['src'], 'ignore': s0['meta']['ignore'], 'keymap': s0['km'], 'mode': s0['meta']['mode'],
-              'first_events': [{k: e[k] for k in ('call', 'kc', 'kind', 'evals', 'exc')} for e in s0['events'][:5]]}
-    cov = {'states': sum(m['distinct'] for m in mcs) + cat_states + st['states'],
-           'transitions': sum(m['generated'] for m in mcs) + st['events'],
-           'traces_validated_against_impl': len(traces), 'samples': [sample],
-           'evaluations': nevents, 'distinct_nontrivial': distinct,
+    acc['events'] = acc.get('events', 0) + sum(len(t['events']) for t in traces)
+    acc['traces'] = acc.get('traces', 0) + len(traces)
+    acc['states'] = acc.get('states', 0) + st['states']
+    acc['tlc_events'] = acc.get('tlc_events', 0) + st['events']
+    acc['wall'] = acc.get('wall', 0.0) + st['wall']
+    acc['rejected'] = acc.get('rejected', 0) + sum(1 for v in verdicts if v)
+    acc.setdefault('distinct', set()).update(common.trace_hash([t['sig'], t['ign'], t['km'], t['meta']['mode']]) for t in traces)
+    if 'sample' not in acc and traces:
+        s0 = traces[0]
+        acc['sample'] = {'function': s0['meta']['src'], 'ignore': s0['meta']['ignore'], 'keymap': s0['km'], 'mode': s0['meta']['mode'],
+                         'first_events': [{k: e[k] for k in ('call', 'kc', 'kind', 'evals', 'exc')} for e in s0['events'][:5]]}
+    return acc
+
+
+def finish(rep, pid, tier, mcs, cat_states, traces, extra_cov=None, assumptions=()):
+    """traces: a list of traces still to be judged, or the accumulator of judge() calls already made"""
+    acc = traces if isinstance(traces, dict) else judge(rep, pid, traces, {})
+    cov = {'states': sum(m['distinct'] for m in mcs) + cat_states + acc.get('states', 0),
+           'transitions': sum(m['generated'] for m in mcs) + acc.get('tlc_events', 0),
+           'traces_validated_against_impl': acc.get('traces', 0), 'samples': [acc.get('sample', {'note': 'no trace'})],
+           'evaluations': acc.get('events', 0), 'distinct_nontrivial': len(acc.get('distinct', ())),
            'rule': 'one trace = one catalogue group (signature x ignore spec) under one keymap configuration and one '
-                   'decorator kind, containing every valid call within the bounds; every event is compared with all '
+                   'decorator kind, containing every valid call within the bounds (groups with more calls than the cap are '
+                   'sampled, seeded); every event is compared with all '
                    'earlier calls of its trace; distinct_nontrivial counts distinct (signature, ignore, keymap, mode) traces',
            'exhaustive': True,
            'model_checking': {'layer_I_pair_runs': mcs},
-           'trace_validation': {'traces': len(traces), 'events': nevents, 'rejected': sum(1 for v in verdicts if v),
-                                'wall_s': round(st['wall'], 1)}}
+           'trace_validation': {'traces': acc.get('traces', 0), 'events': acc.get('events', 0), 'rejected': acc.get('rejected', 0),
+                                'wall_s': round(acc.get('wall', 0.0), 1)}}
     if extra_cov:
         cov.update(extra_cov)
     return rep.finish('model_checking', cov, list(assumptions) + [
@@ -234,6 +257,7 @@ def check_generic(pid, tier, igns, modes=('keygen', 'std', 'safe'), pvals=None, 
     rep = common.Report(pid, tier)
     work = common.scratch('key')
     rng = random.Random(common.seed() + int(pid[1:]))
+    CALL_CAP[0] = 600 if tier == 'thorough' else 300
     consts = base_consts(tier, igns, pvals=pvals, po=po)
     mcs = []
     pc = pair_consts(tier, consts)
@@ -260,8 +284,15 @@ def check_generic(pid, tier, igns, modes=('keygen', 'std', 'safe'), pvals=None, 
         for g in gx:
             g['allkms'] = True
         groups += gx
-    traces = real_traces(groups, rng, tier, modes)
-    return finish(rep, pid, tier, mcs, cat_states, traces, {'named_deviations': devs, 'groups': len(groups)})
+    # real side, in batches of groups (a thorough run has tens of thousands of traces)
+    acc = {}
+    step = 12 if tier == 'thorough' else max(1, len(groups))
+    for lo in range(0, len(groups), step):
+        traces = real_traces(groups[lo:lo + step], rng, tier, modes)
+        judge(rep, pid, traces, acc)
+        del traces
+    return finish(rep, pid, tier, mcs, cat_states, acc, {'named_deviations': devs, 'groups': len(groups),
+                                                          'sampled_groups': sum(1 for g in groups if 'calls_total' in g)})
 
 
 def extra_for_C01(rep, tier):
@@ -270,6 +301,7 @@ def extra_for_C01(rep, tier):
     Returns a coverage dict."""
     work = common.scratch('key01')
     rng = random.Random(common.seed() + 1)
+    CALL_CAP[0] = 400 if tier == 'thorough' else 300
     # (no ignore specification: the stub's value depends on every argument it receives)
     consts = base_consts(tier, {0}, pvals={1, 2, 3, 4, 5, 7} if tier == 'thorough' else {1, 2, 3})
     groups, cat_states = tlc_catalogue(consts, work)
@@ -281,24 +313,16 @@ def extra_for_C01(rep, tier):
         for g in gx:
             g['allkms'] = True
         groups += gx
-    traces = real_traces(groups, rng, tier, modes=('std', 'safe'))
-    strip = [{k: t[k] for k in ('sig', 'ign', 'km', 'cached', 'events')} for t in traces]
-    verdicts, st = common.validate_traces('KeyTrace', strip, ['C01'], per_slice=max(8, len(strip) // common.NCPU + 1))
-    nrej = 0
-    for t, v in zip(traces, verdicts):
-        if v is None:
-            continue
-        if any(c.startswith('ORACLE') for c in v[1]):
-            raise common.MachineryError('ORACLE clause rejected a key-catalogue trace: %s' % (v,))
-        nrej += 1
-        e = t['events'][v[0] - 1]
-        rep.reject(signature(t, v, 'C01'), {'sig': t['sig'], 'ign': t['ign'], 'sid': t['meta']['sid'], 'iid': t['meta']['iid'],
-                                           'source': t['meta']['src'], 'ignore': t['meta']['ignore'], 'keymap': t['km'],
-                                           'variant': t['meta']['variant'], 'mode': t['meta']['mode'], 'event_index': v[0],
-                                           'clauses': v[1], 'event': e, 'replay': 'key',
-                                           'calls_before': [x['call'] for x in t['events'][:v[0]]][-40:]})
-    return {'groups': len(groups), 'traces': len(traces), 'events': st['events'], 'states': st['states'] + cat_states,
-            'rejected': nrej, 'wall_s': round(st['wall'], 1)}
+    acc = {}
+    step = 12 if tier == 'thorough' else max(1, len(groups))
+    for lo in range(0, len(groups), step):
+        traces = real_traces(groups[lo:lo + step], rng, tier, modes=('std', 'safe'))
+        for t in traces:
+            t['meta']['variant'] = dict(t['meta']['variant'] or {}, replay='key')
+        judge(rep, 'C01', traces, acc)
+        del traces
+    return {'groups': len(groups), 'traces': acc.get('traces', 0), 'events': acc.get('tlc_events', 0),
+            'states': acc.get('states', 0) + cat_states, 'rejected': acc.get('rejected', 0), 'wall_s': round(acc.get('wall', 0.0), 1)}
 
 
 def check_C09(tier):
